@@ -547,8 +547,9 @@ NOTE:
     def _constraint(x): #XXX: inefficient, rewrite without append
         x = [x.tolist() if hasattr(x, 'tolist') else x[:]]
         # apply all constraints once
-        e = None
+        m = 0 # number of consecutive constraints that left x unchanged
         for c in constraints:
+            e = None
             try:
                 ci = c(x[-1][:])
             except ZeroDivisionError as exc:
@@ -561,7 +562,8 @@ NOTE:
                     ci = x[-1][:] #XXX: do something else?
                 else: raise exc
             x.append(ci.tolist() if hasattr(ci, 'tolist') else ci)
-        if all(xi == x[-1] for xi in x[1:]) and e is None:
+            m = m+1 if (e is None and x[-1] == x[-2]) else 0
+        if m >= n: # every constraint left x unchanged
             return x[-1] if onexit is None else onexit(x[-1][:])
         # cycle constraints until there's no change
         _constraints = it.cycle(constraints) 
@@ -579,11 +581,13 @@ NOTE:
                     ci = x[-1][:] #XXX: do something else?
                 else: raise exc
             x.append(ci.tolist() if hasattr(ci, 'tolist') else ci)
-            if all(xi == x[-1] for xi in x[-n:]) and e is None:
+            m = m+1 if (e is None and x[-1] == x[-2]) else 0
+            if m >= n: # each of the n constraints left x unchanged
                 return x[-1] if onexit is None else onexit(x[-1][:])
             # may be trapped in a cycle... randomize
             if x[-1] == x[-(n+1)]:
                 x[-1] = [(i+rnd.randint(-1,1))*rnd.random() for i in x[-1]]
+                m = 0
             if not j%(2*n):
                 del x[:n]
         # give up #XXX: or fail with Error?
